@@ -32,8 +32,11 @@ for i in range(1, 21):
     add = []
     if f'{P}-3' not in txt:
         add.append(wave(P, (3, 4), 'second'))
+    six_before = P in ('C01', 'C02', 'C03', 'C04', 'C05', 'C15', 'C17', 'C19', 'C20')
     if f'{P}-5' not in txt:
-        add.append(wave(P, (5, 6), 'third'))
+        add.append(wave(P, (5, 6), 'third' if six_before else 'fifth-round'))
+    if f'{P}-7' not in txt:
+        add.append(wave(P, (7, 8), 'fifth-round'))
     add = '\n'.join(a for a in add if a)
     if add and '**Differences from the plan.**' in txt:
         txt = txt.replace('**Differences from the plan.**', add + '\n\n**Differences from the plan.**', 1)
